@@ -41,9 +41,11 @@ pub const WIDE_SHAPES: [&str; 5] = ["wide-seq", "wide-map", "wide-flowseq", "wid
 pub const WIDE_APIS: [&str; 6] = ["iter@256k", "load", "roundtrip:Yaml", "roundtrip:YamlOwned", "roundtrip:MarkedYaml", "roundtrip:MarkedYamlOwned"];
 
 /// Constructs in which one character is repeated (the flat-input stack scenarios of C01).
-pub const RUN_CONTEXTS: [&str; 14] = [
+pub const RUN_CONTEXTS: [&str; 18] = [
     "- {R}\n", "{R}: v\n", "k: \"{R}\"\n", "k: '{R}'\n", "!!int {R}\n", "!!float {R}\n", "!{R} x\n", "&{R} x\n", "# {R}\n", "k: |\n {R}\n", "[{R}]\n", "k: a{R}\n",
     "- 1{R}\n", "%TAG !e! {R}\n--- !e!x y\n",
+    // the run as INDENTATION of a nested block collection, followed by a shallower line
+    "a:\n{R}b: c\nd: e\n", "-\n{R}- x\n- y\n", "a:\n{R}- x\nb: 1\n", "? a\n{R}b\n: c\n",
 ];
 pub const RUN_CHARS: &str = "+-.0_~exoXOaAnNfFtT:,#&*!|>%@`\\/<=? \t\n";
 pub const RUN_APIS: [&str; 6] = ["iter@256k", "lfs:Yaml", "lfs:YamlOwned", "lfs:MarkedYamlOwned", "lazy:Yaml", "decode"];
